@@ -154,6 +154,13 @@ class NoPath(AnalysisError):
 
 def views(SA, footprint, analytic, ctx="generic", **kw):
     S, rets = SA.returns(footprint, analytic, ctx=ctx, **kw)
+    # a path that rests on a test the interpreter could not model (it explored both outcomes blindly) is no basis for a
+    # verdict: the rules are evaluated on the other paths only, and if none is left the property is not decided
+    solid = [r for r in rets if not any(d[0].startswith("unknown test") for d in r.path)]
+    if rets and not solid:
+        raise NoPath("every returning path of the solver rests on a test that is not modelled (%s) (footprint=%s analytic=%s ctx=%s)" % (
+            next(d[0] for r in rets for d in r.path if d[0].startswith("unknown test"))[:80], footprint, analytic, ctx))
+    rets = solid
     if not rets:
         raise NoPath("no returning path of the solver (footprint=%s analytic=%s ctx=%s)%s" % (
             footprint, analytic, ctx, "; faults: " + "; ".join(SA.faults) if SA.faults else ""))
